@@ -1032,6 +1032,18 @@ var hubFundMuts = []hubMut{
 	{Name: "idxmap-both-hub", F: func(_ *mScene, f *vfundSpec) { f.IndexMap = []channel.Index{1, 1}; vLocked(f).IndexMap = f.IndexMap }},
 	{Name: "idxmap-both-peer", F: func(_ *mScene, f *vfundSpec) { f.IndexMap = []channel.Index{0, 0}; vLocked(f).IndexMap = f.IndexMap }},
 	{Name: "idxmap-swapped", F: func(_ *mScene, f *vfundSpec) { f.IndexMap = []channel.Index{1, 0}; vLocked(f).IndexMap = f.IndexMap }},
+	// swapped index map (Alice -> hub, Bob -> M) together with the parent update that matches it: the hub
+	// pays Alice's 5, M pays Bob's 3 - consistent in itself, only the match with B's proposal can refuse it
+	{Name: "idxmap-swapped-debit-matching", F: func(_ *mScene, f *vfundSpec) {
+		f.IndexMap = []channel.Index{1, 0}
+		vLocked(f).IndexMap = f.IndexMap
+		mShift(f.U, +2)
+	}},
+	{Name: "idxmap-both-hub-debit-matching", F: func(_ *mScene, f *vfundSpec) {
+		f.IndexMap = []channel.Index{1, 1}
+		vLocked(f).IndexMap = f.IndexMap
+		mShift(f.U, +5)
+	}},
 	{Name: "suballoc-idxmap-differs", F: func(_ *mScene, f *vfundSpec) { vLocked(f).IndexMap = []channel.Index{1, 0} }},
 	{Name: "amount-more", F: func(_ *mScene, f *vfundSpec) {
 		x := vLocked(f)
